@@ -34,17 +34,21 @@ def capture(store):
 def correspondence(ctx):
     import gstools as gs
     rng = np.random.RandomState(ctx.seed + 909)
-    N = ctx.scale(80, 800)
+    N = ctx.scale(400, 4000)
     ops, meta, dist, samples = [], [], {}, []
+    n_auto = {True: 0, False: 0}      # the binning combinations are cycled separately for lat-lon and metric calls
     with warnings.catch_warnings():
         warnings.simplefilter("ignore")
         for t in range(N):
-            dim = int(rng.randint(1, 4))
-            latlon = bool(dim == 2 and rng.rand() < 0.25)
+            latlon = bool(rng.rand() < 0.35)
+            dim = 2 if latlon else int(rng.randint(1, 4))
             P = int(rng.randint(3, 14))
             F = int(rng.randint(1, 4))
             pos = rng.uniform(-5, 5, size=(dim, P))
-            pos[0] = np.arange(P) * (0.5 if latlon else 1.0)      # first coordinate encodes the original index
+            step = float(rng.choice([0.5, 4.0])) if latlon else 1.0
+            pos[0] = np.arange(P) * step                          # first coordinate encodes the original index
+            if latlon and rng.rand() < 0.5:
+                pos[1] = rng.uniform(-200, 200, size=P)           # wide longitudes incl. the date line and beyond
             f = rng.randint(-8, 9, size=(F, P)) / 4.0
             fmask = np.zeros((F, P), dtype=bool)
             use_ma = rng.rand() < 0.5
@@ -70,6 +74,18 @@ def correspondence(ctx):
                 geo = float(rng.choice([1.0, gs.DEGREE_SCALE, gs.KM_SCALE, 3.5]))
                 kw.update(latlon=True, geo_scale=geo)
                 bins = bins / 8.0 * geo
+            # binning: explicit edges, or bin_edges=None with {bin_no given / None} x {max_dist given / None} handed on to
+            # standard_bins (max_dist in the unit of geo_scale, like the edges)
+            auto = None
+            if rng.rand() < 0.6:
+                auto = {}
+                combo = n_auto[latlon] % 4
+                n_auto[latlon] += 1
+                if combo & 1:
+                    auto["bin_no"] = int(rng.randint(1, 9))
+                if combo & 2:
+                    auto["max_dist"] = float(rng.uniform(0.1, 1.2) * geo) if latlon else float(rng.uniform(1.0, 12.0))
+                kw.update(auto)
             dirs = None
             if dim > 1 and not latlon and rng.rand() < 0.5:
                 D = int(rng.randint(1, 4))
@@ -91,7 +107,7 @@ def correspondence(ctx):
             store = []
             try:
                 with capture(store):
-                    gs.vario_estimate(pos, fld, bins, **kw)
+                    out = gs.vario_estimate(pos, fld, None if auto is not None else bins, **kw)
             except Exception as e:
                 dist["rejected:" + type(e).__name__] = dist.get("rejected:" + type(e).__name__, 0) + 1
                 continue
@@ -99,7 +115,11 @@ def correspondence(ctx):
                 dist["all-masked"] = dist.get("all-masked", 0) + 1
                 continue
             kind, cf, cb, cp, ckw = store[0]
+            bmode = "explicit" if auto is None else "+".join(sorted(auto) or ["auto"])
+            gname = {1.0: "radian", gs.DEGREE_SCALE: "degree", gs.KM_SCALE: "km"}.get(geo, "arbitrary") if latlon else "-"
             key = f"{kind}/ma={use_ma}/mask={emask is not None}/nodata={nd is not None}/sampled={samp is not None}/latlon={latlon}"
+            bkey = f"bins={bmode}/latlon={latlon}/geo_scale={gname}"
+            dist[bkey] = dist.get(bkey, 0) + 1
             dist[key] = dist.get(key, 0) + 1
             # kept points after masking (needed to replay numpy's choice)
             allm = fmask.all(axis=0)
@@ -120,13 +140,31 @@ def correspondence(ctx):
             if sampled is not None:
                 op["sampled"] = sampled
             ops.append(op)
-            idx = np.rint(cp[0] / (0.5 if latlon else 1.0)).astype(int)
+            idx = np.rint(cp[0] / step).astype(int)
             meta.append(("prep", (idx, cf), key))
             if kind == "dir":
                 ops.append(dict(op="vario_dirs", dim=dim, D=int(dirs.shape[0]), dir=fbits(dirs), tol=fbits([ckw["angles_tol"]])[0]))
                 meta.append(("dirs", (ckw["direction"], ckw["separate_dirs"], ckw["bandwidth"], kw.get("bandwidth")), key))
-            ops.append(dict(op="vario_bins", bins=fbits(bins), latlon=latlon, geo_scale=fbits([geo])[0]))
-            meta.append(("bins", cb, key))
+            if auto is None:
+                ops.append(dict(op="vario_bins", bins=fbits(bins), latlon=latlon, geo_scale=fbits([geo])[0]))
+                meta.append(("bins", cb, key))
+            # the whole binning path (explicit or standard_bins on the points that survive masking and sub-sampling):
+            # returned bin centres and the edges handed to the kernel
+            bop = dict(op="vario_bins_full", F=F, P=P, dim=dim, fmask=[int(b) for b in fmask.ravel()], pos=fbits(pos), latlon=latlon,
+                       geo_scale=fbits([geo])[0])
+            if emask is not None:
+                bop["mask"] = [int(b) for b in emask]
+            if sampled is not None:
+                bop["sampled"] = sampled
+            if auto is None:
+                bop["bins"] = fbits(bins)
+            else:
+                if "bin_no" in auto:
+                    bop["bin_no"] = auto["bin_no"]
+                if "max_dist" in auto:
+                    bop["max_dist"] = fbits([auto["max_dist"]])[0]
+            ops.append(bop)
+            meta.append(("bins-full", (np.asarray(out[0], dtype=float), cb, auto, geo if latlon else 0.0), key + "/" + bkey))
             if len(samples) < 3:
                 samples.append({"key": key, "P": P, "F": F, "kept": kept_cnt, "sampled": sampled})
     res = run_driver(ops)
@@ -151,6 +189,23 @@ def correspondence(ctx):
             if not ok:
                 dis.append({"what": "vario_estimate preprocessing: directions / separate_dirs / bandwidth differ from the model", "key": key,
                             "real": [d.tolist(), bool(sep), bw], "model": [md.tolist(), bool(r["separate"])]})
+        elif kind == "bins-full":
+            centres, cb, auto, geo = real
+            if "raised" in r:
+                dis.append({"what": "vario_estimate binning: the model raises " + str(r["raised"]) + ", gstools does not", "key": key})
+                continue
+            mc, mk = unbits(r["centres"]), unbits(r["kernel"])
+            if auto is None or "max_dist" in auto:
+                # explicit edges: one division / one mean per entry; given max_dist: linspace and one division -> same doubles
+                ok = np.array_equal(mc, centres) and np.array_equal(mk, cb)
+            else:
+                # automatic cut-off from the box diameter (sqrt / trigonometry): absolute tolerance on the scale of the sphere
+                ok = mc.shape == centres.shape and mk.shape == cb.shape and \
+                    np.allclose(mc, centres, rtol=1e-12, atol=1e-12 * geo) and np.allclose(mk, cb, rtol=1e-12, atol=1e-12 * (1.0 if geo else 0.0))
+            if not ok:
+                dis.append({"what": "vario_estimate binning: returned bin centres / bin edges handed to the kernel differ from the model "
+                                    "(bin_edges or standard_bins(bin_no, max_dist, geo_scale) on the selected points, edges / geo_scale for lat-lon)",
+                            "key": key, "real": [centres.tolist(), cb.tolist()], "model": [mc.tolist(), mk.tolist()], "args": auto})
         else:
             mb = unbits(r)
             if not np.array_equal(mb, real):
@@ -158,9 +213,11 @@ def correspondence(ctx):
                             "real": real.tolist(), "model": mb.tolist()})
     return {"evaluations": len(ops), "distinct_nontrivial": len(distinct),
             "rule": "random vario_estimate calls (masked arrays, extra mask, no_data incl. values inside the isclose band, multi-field stacks, seeded "
-                    "sub-sampling, directions, bandwidth, lat-lon with four geo_scales); the arguments the glue hands to the kernel wrappers "
+                    "sub-sampling, directions, bandwidth, lat-lon with four geo_scales, explicit bin_edges or bin_edges=None with bin_no / max_dist "
+                    "given or not); the arguments the glue hands to the kernel wrappers "
                     "(point selection and order, NaN placement, normalised directions, separate_dirs flag, bandwidth default, converted bins) "
-                    "are compared with the Lean model exactly; distinct = distinct (stage, option combination)",
+                    "and the returned bin centres are compared with the Lean model exactly (1e-12 where the automatic cut-off goes through "
+                    "sqrt / trigonometry); distinct = distinct (stage, option combination)",
             "samples": samples, "disagreements": dis[:6], "distribution": dist}
 
 
@@ -174,7 +231,7 @@ def search(ctx, deep=False):
     import gstools as gs
     from props import C08
     rng = np.random.RandomState(ctx.seed + 99)
-    N = ctx.scale(40, 400) * (3 if deep else 1)
+    N = ctx.scale(100, 600) * (3 if deep else 1)
     ev, viol = C08.directed(ctx)
     with warnings.catch_warnings():
         warnings.simplefilter("ignore")
@@ -269,6 +326,89 @@ def search(ctx, deep=False):
                     if np.min(np.abs(hav[:, None] * gsc - (rb * gsc)[None, :])) > 1e-9 * gsc:
                         chk("geo-scale", "great-circle binning in a length unit differs from binning in radians", r1, r0)
                     ev += 1
-    return {"evaluations": ev, "violations": viol[:8],
+            # ---------- automatic bins (bin_edges=None): {bin_no given / None} x {max_dist given / None}
+            # (a) metric: vario_estimate(pos, f, bin_no=n, max_dist=m) is vario_estimate(pos, f, linspace(0, m, n+1)) and, with one of
+            #     them missing, uses sturges(point count) bins up to a third of the box diameter
+            combo = t % 4
+            akw = {}
+            if combo & 1:
+                akw["bin_no"] = int(rng.randint(1, 10))
+            if combo & 2:
+                akw["max_dist"] = float(rng.uniform(1.0, 9.0))
+            amode = "+".join(sorted(akw) or ["auto"])
+            diam = float(np.sqrt(np.sum((pos.max(axis=1) - pos.min(axis=1)) ** 2)))
+            aedges = np.linspace(0.0, akw.get("max_dist", diam / 3.0), akw.get("bin_no", int(np.ceil(2 * np.log2(P) + 1))) + 1)
+            a1 = gs.vario_estimate(pos, f, estimator=est, return_counts=True, **akw)
+            a0 = gs.vario_estimate(pos, f, aedges, estimator=est, return_counts=True)
+            ev += 1
+            adesc = dict(desc, bins=None, **akw)
+            if not close(a1[0], a0[0], 1e-12):
+                viol.append({"key": "auto-bins:centres:" + amode, "what": "bin_edges=None: bin centres are not those of linspace(0, max_dist or box diameter / 3, "
+                             "bin_no or sturges + 1)", "case": adesc, "got": np.asarray(a1[0]).tolist(), "want": np.asarray(a0[0]).tolist()})
+            elif np.min(np.abs(dd[np.triu_indices(P, 1)][:, None] - aedges[None, :])) > 1e-9 and \
+                    not (close(a1[1], a0[1], 1e-10) and np.array_equal(a1[2], a0[2])):
+                viol.append({"key": "auto-bins:estimate:" + amode, "what": "bin_edges=None differs from the estimate with the equivalent explicit edges",
+                             "case": adesc, "got": [np.asarray(a1[1]).tolist(), np.asarray(a1[2]).tolist()],
+                             "want": [np.asarray(a0[1]).tolist(), np.asarray(a0[2]).tolist()]})
+            # (b) lat-lon, any dimension of the loop: great-circle binning in a unit s with automatic bins; every length the caller
+            #     gives (max_dist) or gets (bin centres) is in that unit: same variogram as in radians, centres scaled by s
+            Pl = int(rng.randint(4, 25))
+            ll = np.vstack([rng.uniform(-80, 80, Pl), rng.uniform(-170, 190, Pl)])
+            if rng.rand() < 0.5:
+                ll = np.vstack([rng.uniform(-5, 5, Pl) + rng.uniform(-60, 60), rng.uniform(-8, 8, Pl) + rng.uniform(-180, 180)])   # regional
+            fl_ = rng.randn(Pl)
+            hav = np.array([brute.haversine(ll, i, j) for i in range(Pl) for j in range(i + 1, Pl)])
+            lkw = {}
+            if combo & 1:
+                lkw["bin_no"] = int(rng.randint(1, 10))
+            if combo & 2:
+                lkw["max_dist"] = float(rng.uniform(0.3, 1.5) * hav.max())       # radians
+            r0 = gs.vario_estimate(ll, fl_, estimator=est, latlon=True, return_counts=True, **lkw)
+            nb = len(r0[0])
+            # bins of the radian run: uniform and zero based, so the edges follow from the first centre; the given cut-off is documented
+            e0 = np.linspace(0.0, lkw["max_dist"], nb + 1) if "max_dist" in lkw else 2.0 * r0[0][0] * np.arange(nb + 1)
+            ldesc = dict(latlon=ll.tolist(), field=fl_.tolist(), estimator=est, **lkw)
+            ev += 1
+            if not close(r0[0], 0.5 * (e0[1:] + e0[:-1]), 1e-10):
+                viol.append({"key": "geo-scale:auto-bins:centres:" + amode, "what": "lat-lon, bin_edges=None, radians: bin centres are not the mid-points of "
+                             "linspace(0, max_dist, n+1)", "case": ldesc, "got": np.asarray(r0[0]).tolist()})
+            else:
+                # the radian run itself against brute-force great-circle binning with those edges
+                lsafe = np.min(np.abs(hav[:, None] - e0[None, :])) > 1e-9
+                if lsafe:
+                    bg, bc = brute.unstructured(fl_[None, :], e0, ll, est="m" if est == "matheron" else "c", dist="h")
+                    if not (close(r0[1], bg, 1e-9) and np.array_equal(r0[2], bc)):
+                        viol.append({"key": "geo-scale:auto-bins:brute:" + amode, "what": "lat-lon, bin_edges=None: estimate differs from brute-force "
+                                     "great-circle binning with the bins the centres describe", "case": ldesc})
+                for gsc in (gs.DEGREE_SCALE, gs.KM_SCALE, float(np.round(rng.uniform(0.1, 500.0), 3))):
+                    skw = dict(lkw)
+                    if "max_dist" in skw:
+                        skw["max_dist"] = skw["max_dist"] * gsc
+                    r1 = gs.vario_estimate(ll, fl_, estimator=est, latlon=True, geo_scale=gsc, return_counts=True, **skw)
+                    ev += 1
+                    sdesc = dict(ldesc, geo_scale=gsc, **skw)
+                    if not close(r1[0], np.asarray(r0[0]) * gsc, 1e-10):
+                        viol.append({"key": "geo-scale:auto-bins:centres:" + amode, "what": "lat-lon, bin_edges=None: bin centres in a length unit are not the "
+                                     "radian centres times geo_scale (max_dist is given in that unit)", "case": sdesc,
+                                     "got": np.asarray(r1[0]).tolist(), "want": (np.asarray(r0[0]) * gsc).tolist()})
+                    elif lsafe and not (close(r1[1], r0[1], 1e-9) and np.array_equal(r1[2], r0[2])):
+                        viol.append({"key": "geo-scale:auto-bins:" + amode, "what": "lat-lon, bin_edges=None: great-circle binning in a length unit differs from "
+                                     "binning in radians", "case": sdesc, "got": [np.asarray(r1[1]).tolist(), np.asarray(r1[2]).tolist()],
+                                     "want": [np.asarray(r0[1]).tolist(), np.asarray(r0[2]).tolist()]})
+                    # ... and equals the explicit edges in that unit
+                    r2 = gs.vario_estimate(ll, fl_, e0 * gsc, estimator=est, latlon=True, geo_scale=gsc, return_counts=True)
+                    ev += 1
+                    if lsafe and not (close(r2[0], r1[0], 1e-10) and close(r2[1], r1[1], 1e-9) and np.array_equal(r2[2], r1[2])):
+                        viol.append({"key": "geo-scale:auto-vs-explicit:" + amode, "what": "lat-lon with geo_scale: bin_edges=None differs from the equivalent "
+                                     "explicit edges in the same unit", "case": sdesc})
+    # at most two reports per key
+    seen, out = {}, []
+    for v in viol:
+        seen[v["key"]] = seen.get(v["key"], 0) + 1
+        if seen[v["key"]] <= 2:
+            out.append(v)
+    return {"evaluations": ev, "violations": out[:8],
             "summary": "metamorphic relations on vario_estimate: permutation, rigid motion, shift, scale, NaN/masked/mask/no_data as removal, "
-                       "seeded sampling, structured vs point list, rotating directions, geo_scale units"}
+                       "seeded sampling, structured vs point list, rotating directions, geo_scale units with explicit edges and with "
+                       "bin_edges=None x {bin_no given / None} x {max_dist given / None} (centres scaled, variogram unchanged, equal to explicit "
+                       "edges, brute-force great-circle binning); automatic metric bins equal linspace(0, max_dist or box diameter / 3, bin_no or sturges + 1)"}
